@@ -60,6 +60,20 @@ def sweeps(quick):
         out.append({"items": [S(1), S(n), S(5)]})
     for n in range(1050, 1100, step):
         out.append({"items": [L(300, 300), S(n - 640)], "events": True})
+    # events: queued events spanning several messages, after attributes that leave little or no room; a concrete event path
+    # that selects nothing (answered by a status) where a message ends; an event no message can carry
+    E = lambda items, evs, mode="wild": {"items": items, "events": mode, "evs": evs}
+    out.append(E([S(1), S(500)], [10, 200, 300, 400, 50, 600, 20]))
+    out.append(E([L(300, 300, 300, 300, 300)], [1000, 1, 1000], "both"))
+    out.append(E([S(1)], [10, 1150, 20]))
+    out.append(E([S(1)], [1300]))
+    out.append(E([S(1)], [(37 * i) % 300 + 1 for i in range(40)], "both"))
+    for n in range(1000, 1140, 1 if not quick else 3):
+        out.append(E([S(1), S(n)], [5, 700, 5], "both"))
+        out.append(E([S(1), S(n)], [], "missing"))
+    for n in range(980, 1180, step):
+        out.append(E([S(1)], [n]))
+        out.append(E([S(1)], [300, n - 300, 2]))
     # many attributes
     out.append({"items": [S(1 + (13 * i) % 120) for i in range(100)]})
     return out
@@ -123,7 +137,7 @@ def run(tier, seed):
         "binding_selftest": {"duplicated_event": k + 1, "rejected_at": r2.get("rejected_at"), "ok": True},
         "samples": [seqs[0], ev[:8]],
     })
-    ck.assumptions += ["attribute reads only: events, data-version filters and subscription priming go through the same writer loop (report_attributes / send) but are not driven here",
+    ck.assumptions += ["reads of attributes and queued events: data-version filters, event filters and subscription priming / reports go through the same writer loop (report_attributes / report_events / send) but are not driven here",
                        "the transmit buffer has the size the crate is built with (MAX_EXCHANGE_TX_BUF_SIZE); smaller buffers are covered only by the model (Cap)",
                        "a value larger than 900 bytes may be answered by a ResourceExhausted status (no message can carry it); smaller values must be delivered"]
     return ck.finish()
